@@ -357,6 +357,8 @@ val rFC_V2 : n list
 
 val rFC_V3 : n list
 
+val rFC_TABLE2 : ((((n * n) * n) * n) * n) list
+
 val rFC_DEG_F : n list
 
 val rFC_TUPLE_A_BASE : n
@@ -1084,6 +1086,8 @@ val take_batches : nat -> n list -> n list list * n list
 val run_sbd_hist : mode -> n list -> n list
 
 val run_intermediate : mode -> n list -> n list
+
+val next_prime : nat -> n -> n
 
 val spec_params : n -> cparams option
 
